@@ -512,6 +512,12 @@ private:
 
 
 /// <summary>
+/// The sizes of arrays, maps and binary arrays are declared in the input data and cannot be trusted (a few bytes
+/// may declare billions of items), this limits the number of items which containers allocate in advance.
+/// </summary>
+static constexpr size_t MaxEstimatedSize = 4096;
+
+/// <summary>
 /// MsgPack scope for serializing binary arrays.
 /// </summary>
 template <class TReader>
@@ -566,7 +572,7 @@ public:
 	/// </summary>
 	[[nodiscard]] size_t GetEstimatedSize() const noexcept
 	{
-		return mSize;
+		return mSize < MaxEstimatedSize ? mSize : MaxEstimatedSize;
 	}
 
 	/// <summary>
@@ -647,7 +653,7 @@ public:
 	/// </summary>
 	[[nodiscard]] size_t GetEstimatedSize() const noexcept
 	{
-		return mSize;
+		return mSize < MaxEstimatedSize ? mSize : MaxEstimatedSize;
 	}
 
 	/// <summary>
@@ -760,7 +766,7 @@ public:
 	/// </summary>
 	[[nodiscard]] size_t GetEstimatedSize() const noexcept
 	{
-		return mSize;
+		return mSize < MaxEstimatedSize ? mSize : MaxEstimatedSize;
 	}
 
 	/// <summary>
